@@ -5,6 +5,7 @@ JSON AST of tooling/internal/cpp/include/detail/binary/*.h. Nothing is imported 
 Each analyser appends obligations {key, rule, pos, status, fact} like the Go side.
 """
 import ast
+import re
 import json
 import os
 
@@ -574,60 +575,214 @@ def rule_py_headers(out):
                 seq.append("schema")
         out.check(seq == ["magic", "version", "schema"], rid, "BinaryProtocolWriter.__init__/header order", pos(rel, w),
                   "writes magic, fixed int32 version, schema string", "header is not written as magic, int32 version, schema: %s" % seq)
+    # readers: decided on the normally-completing paths of __init__ (helpers of the module expanded in
+    # place), so that the shape of the tests — `!=` with raise, `==` with early return, `not (a == b)`,
+    # nested ifs, a helper function — does not matter
     r = methods(cl["BinaryProtocolReader"]).get("__init__") if "BinaryProtocolReader" in cl else None
     if r is None:
         out.undecided(rid, "BinaryProtocolReader.__init__", rel, "not found")
     else:
-        checks = []
-        for st in r.body:
-            if isinstance(st, ast.If) and _raises(st.body):
-                t = st.test
-                txt = ast.unparse(t)
-                which = "magic" if "MAGIC_BYTES" in txt else "version" if "CURRENT_BINARY_FORMAT_VERSION" in txt else "schema" if "schema" in txt else "?"
-                cmp = t
-                if isinstance(t, ast.BoolOp):  # expected_schema and self._schema != expected_schema
-                    cmp = t.values[-1]
-                neq = isinstance(cmp, ast.Compare) and len(cmp.ops) == 1 and isinstance(cmp.ops[0], ast.NotEq)
-                if isinstance(t, ast.BoolOp):
-                    # the only accepted extra condition: "an expected schema was given" (None/"" = caller opted out)
-                    extra = t.values[:-1]
-                    names = {n.id for e in extra for n in ast.walk(e) if isinstance(n, ast.Name)} | {n.attr for e in extra for n in ast.walk(e) if isinstance(n, ast.Attribute)}
-                    neq = neq and isinstance(t.op, ast.And) and len(extra) == 1 and names <= {"expected_schema"}
-                checks.append((which, neq, st))
-        order = [c[0] for c in checks]
-        out.check(order == ["magic", "version", "schema"], rid, "BinaryProtocolReader.__init__/checks in order", pos(rel, r),
-                  "magic, version, schema are each checked with a raising branch, in stream order", "header checks found: %s (expected magic, version, schema)" % order)
-        for which, neq, st in checks:
-            out.check(neq, rid, "BinaryProtocolReader.__init__/%s compared with !=" % which, pos(rel, st), "mismatch raises",
-                      "the %s test is not a plain inequality test (optionally behind `expected_schema and`): some foreign values are accepted" % which)
+        pe = PathEnum(tree)
+        ok_paths = [p for p in pe.paths(r.body) if p.outcome != "raise"]
+        key = "BinaryProtocolReader.__init__"
+        if pe.overflow or not ok_paths:
+            out.undecided(rid, key + "/paths", pos(rel, r), "cannot enumerate the paths of the reader's constructor")
+        else:
+            for which, marker in (("magic", "MAGIC_BYTES"), ("version", "CURRENT_BINARY_FORMAT_VERSION")):
+                bad = [p for p in ok_paths if not p.asserts_equal(marker)]
+                out.check(not bad, rid, "%s/%s compared with !=" % (key, which), pos(rel, r), "every path that completes has %s == the expected value" % which,
+                          "the constructor can complete without the %s having been found equal to %s: some foreign streams are accepted" % (which, marker))
+            bad = [p for p in ok_paths if not (p.asserts_equal("expected_schema") or p.asserts_falsy("expected_schema") or p.denies_and("expected_schema"))]
+            out.check(not bad, rid, key + "/schema compared with !=", pos(rel, r), "every path that completes has the stored schema equal to the expected one, or no expected schema was given",
+                      "the constructor can complete although an expected schema was given and the stream's schema was not found equal to it")
+            order_ok = all(p.order_of(["MAGIC_BYTES", "CURRENT_BINARY_FORMAT_VERSION", "expected_schema"]) for p in ok_paths)
+            out.check(order_ok, rid, key + "/checks in order", pos(rel, r), "magic, version, schema are checked in stream order",
+                      "the header checks are not made in the order magic, version, schema")
     tree2, rel2 = parse_py(out, "_ndjson.py")
     cl2 = classes(tree2)
     r2 = methods(cl2["NDJsonProtocolReader"]).get("__init__") if "NDJsonProtocolReader" in cl2 else None
     if r2 is None:
         out.undecided(rid, "NDJsonProtocolReader.__init__", rel2, "not found")
     else:
-        found = {}
-        for st in ast.walk(r2):
-            if isinstance(st, ast.If) and _raises(st.body):
-                txt = ast.unparse(st.test)
-                if "CURRENT_NDJSON_FORMAT_VERSION" in txt:
-                    found["version"] = st
-                elif "schema" in txt:
-                    found["schema"] = st
-                elif "'yardl'" in txt or '"yardl"' in txt:
-                    found["yardl key"] = st
-        for which in ("yardl key", "version", "schema"):
-            st = found.get(which)
-            if st is None:
-                out.bad(rid, "NDJsonProtocolReader.__init__/%s check" % which, pos(rel2, r2), "no raising check of the %s of the header line" % which)
+        pe = PathEnum(tree2)
+        ok_paths = [p for p in pe.paths(r2.body) if p.outcome != "raise"]
+        key = "NDJsonProtocolReader.__init__"
+        if pe.overflow or not ok_paths:
+            out.undecided(rid, key + "/paths", pos(rel2, r2), "cannot enumerate the paths of the reader's constructor")
+        else:
+            bad = [p for p in ok_paths if not p.asserts_membership("yardl")]
+            out.check(not bad, rid, key + "/yardl key check", pos(rel2, r2), "every path that completes found the 'yardl' key in the first line",
+                      "the constructor can complete without the first line having a 'yardl' entry")
+            bad = [p for p in ok_paths if not p.asserts_equal("CURRENT_NDJSON_FORMAT_VERSION")]
+            out.check(not bad, rid, key + "/version check", pos(rel2, r2), "mismatch raises", "the constructor can complete with a format version other than CURRENT_NDJSON_FORMAT_VERSION")
+            bad = [p for p in ok_paths if not p.asserts_equal("json.loads(schema)")]
+            out.check(not bad, rid, key + "/schema check", pos(rel2, r2), "mismatch raises", "the constructor can complete although the header's schema was not found equal to the protocol's schema")
+
+
+class PyPath:
+    def __init__(self, lits, outcome, env):
+        self.lits, self.outcome, self.env = lits, outcome, env
+
+    def _expand(self, node):
+        """source text of an expression with single-assignment locals replaced by their value"""
+        txt = ast.unparse(node)
+        for _ in range(3):
+            changed = False
+            for name, val in self.env.items():
+                new = re.sub(r"(?<![\w.])%s(?![\w])" % re.escape(name), "(" + val + ")", txt)
+                if new != txt:
+                    txt, changed = new, True
+            if not changed:
+                break
+        return txt
+
+    def _eq_literals(self):
+        """(left text, right text, index) for every comparison known to hold with equality on this path"""
+        res = []
+        for i, (t, val) in enumerate(self.lits):
+            if isinstance(t, ast.Compare) and len(t.ops) == 1:
+                if (isinstance(t.ops[0], ast.Eq) and val) or (isinstance(t.ops[0], ast.NotEq) and not val):
+                    res.append((self._expand(t.left), self._expand(t.comparators[0]), i))
+        return res
+
+    def asserts_equal(self, marker):
+        return any(marker in a or marker in b for a, b, _ in self._eq_literals())
+
+    def asserts_falsy(self, name):
+        for t, val in self.lits:
+            if not val and (isinstance(t, ast.Name) and t.id == name):
+                return True
+            if val and isinstance(t, ast.Compare) and len(t.ops) == 1 and isinstance(t.ops[0], ast.Is) and ast.unparse(t.left) == name and ast.unparse(t.comparators[0]) == "None":
+                return True
+        return False
+
+    def denies_and(self, name):
+        """not (name and X != name): either no expected value or equality"""
+        for t, val in self.lits:
+            if not val and isinstance(t, ast.BoolOp) and isinstance(t.op, ast.And) and len(t.values) == 2:
+                a, b = t.values
+                if isinstance(a, ast.Name) and a.id == name and isinstance(b, ast.Compare) and len(b.ops) == 1 and isinstance(b.ops[0], ast.NotEq) \
+                        and (name in ast.unparse(b.left) or name in ast.unparse(b.comparators[0])):
+                    return True
+        return False
+
+    def asserts_membership(self, key):
+        for t, val in self.lits:
+            if isinstance(t, ast.Compare) and len(t.ops) == 1 and isinstance(t.left, ast.Constant) and t.left.value == key:
+                if (isinstance(t.ops[0], ast.In) and val) or (isinstance(t.ops[0], ast.NotIn) and not val):
+                    return True
+        return False
+
+    def order_of(self, markers):
+        last = -1
+        for m in markers:
+            idx = None
+            for a, b, i in self._eq_literals():
+                if m in a or m in b:
+                    idx = i
+                    break
+            if idx is None:
+                # optional check absent on this path (no expected schema)
+                for i, (t, val) in enumerate(self.lits):
+                    if m in ast.unparse(t):
+                        idx = i
+                        break
+            if idx is None:
                 continue
-            t = st.test
-            ok = True
-            if which != "yardl key":
-                cmps = [n for n in ast.walk(t) if isinstance(n, ast.Compare)]
-                ok = any(len(c.ops) == 1 and isinstance(c.ops[0], ast.NotEq) for c in cmps)
-            out.check(ok, rid, "NDJsonProtocolReader.__init__/%s check" % which, pos(rel2, st), "mismatch raises",
-                      "the %s test is not an inequality test" % which)
+            if idx < last:
+                return False
+            last = idx
+        return True
+
+
+class PathEnum:
+    """Enumerates the paths of a (simple) function body as lists of (test, value) literals.
+    `a and b` taken / `a or b` not taken / `not a` are split into their parts. Calls of module-level
+    functions of the same file are expanded in place. Loops and try bodies are taken once or not at all."""
+
+    def __init__(self, module, limit=512):
+        self.funcs = {n.name: n for n in module.body if isinstance(n, ast.FunctionDef)}
+        self.limit = limit
+        self.overflow = False
+
+    def split(self, test, val):
+        if isinstance(test, ast.UnaryOp) and isinstance(test.op, ast.Not):
+            return self.split(test.operand, not val)
+        if isinstance(test, ast.BoolOp):
+            if isinstance(test.op, ast.And) and val:
+                return [l for v in test.values for l in self.split(v, True)]
+            if isinstance(test.op, ast.Or) and not val:
+                return [l for v in test.values for l in self.split(v, False)]
+        return [(test, val)]
+
+    def paths(self, stmts, depth=0):
+        res = [PyPath([], "fall", {})]
+        for st in stmts:
+            nxt = []
+            for p in res:
+                if p.outcome != "fall":
+                    nxt.append(p)
+                    continue
+                for q in self.step(st, p, depth):
+                    nxt.append(q)
+            res = nxt
+            if len(res) > self.limit:
+                self.overflow = True
+                return res[: self.limit]
+        return res
+
+    def _seq(self, p, stmts, depth):
+        out = []
+        for q in self.paths(stmts, depth):
+            env = dict(p.env)
+            env.update(q.env)
+            out.append(PyPath(p.lits + q.lits, q.outcome, env))
+        return out
+
+    def step(self, st, p, depth):
+        if isinstance(st, ast.Raise):
+            return [PyPath(p.lits, "raise", p.env)]
+        if isinstance(st, ast.Return):
+            return [PyPath(p.lits, "return", p.env)]
+        if isinstance(st, ast.If):
+            res = []
+            for val, body in ((True, st.body), (False, st.orelse)):
+                q = PyPath(p.lits + self.split(st.test, val), "fall", p.env)
+                res += self._seq(q, body, depth)
+            return res
+        if isinstance(st, (ast.For, ast.While)):
+            return self._seq(p, st.body, depth) + [p]
+        if isinstance(st, ast.Try):
+            res = self._seq(p, st.body, depth)
+            for h in st.handlers:
+                res += self._seq(p, h.body, depth)
+            return res
+        if isinstance(st, ast.With):
+            return self._seq(p, st.body, depth)
+        if isinstance(st, ast.Assign) and len(st.targets) == 1 and isinstance(st.targets[0], (ast.Name, ast.Attribute)):
+            env = dict(p.env)
+            name = ast.unparse(st.targets[0])
+            val = ast.unparse(st.value)
+            if name in env or re.search(r"(?<![\w.])%s(?![\w])" % re.escape(name), val):
+                env.pop(name, None)  # reassigned (or defined from itself): no longer a plain alias
+            else:
+                env[name] = val
+            return [PyPath(p.lits, "fall", env)]
+        if isinstance(st, ast.AnnAssign) and st.value is not None and isinstance(st.target, (ast.Name, ast.Attribute)):
+            env = dict(p.env)
+            env[ast.unparse(st.target)] = ast.unparse(st.value)
+            return [PyPath(p.lits, "fall", env)]
+        if isinstance(st, ast.Expr) and isinstance(st.value, ast.Call) and isinstance(st.value.func, ast.Name) and st.value.func.id in self.funcs and depth < 3:
+            fn = self.funcs[st.value.func.id]
+            # bind parameters to the argument texts
+            env = dict(p.env)
+            for a, prm in zip(st.value.args, fn.args.args):
+                env[prm.arg] = ast.unparse(a)
+            res = []
+            for q in self._seq(PyPath(p.lits, "fall", env), fn.body, depth + 1):
+                res.append(PyPath(q.lits, "fall" if q.outcome in ("fall", "return") else q.outcome, q.env))
+            return res
+        return [p]
 
 
 # ----------------------------------------------------------------------------------
